@@ -149,7 +149,10 @@ class CountingBloomFilter(BloomFilter):
                 self._bloom[k] = UINT32_T_MAX
                 vals[i] = UINT32_T_MAX
             else:
-                self._bloom[k] += num_els  # This keeps the original methodology
+                # a position can occur more than once in indices, so clamp the running value as well
+                self._bloom[k] = min(self._bloom[k] + num_els, UINT32_T_MAX)
+        # a cell that ended up pinned (possibly only by a repeated position) reports the limit
+        vals = [UINT32_T_MAX if self._bloom[k] == UINT32_T_MAX else v for k, v in zip(indices, vals)]
         self.elements_added = min(self.elements_added + num_els, UINT64_T_MAX)
         return min(vals)
 
